@@ -133,7 +133,18 @@ def run(res):
         nrej[0] += len(rej)
         # which calls the property itself requires to be rejected (a shadow cursor over the calls it accepts)
         cur = 0
+        closed = False
         for i, (op, r) in enumerate(zip(ops, reports)):
+            if op[0] == "c":
+                closed = True
+                continue
+            if closed:
+                # a closed writer refuses everything and keeps reporting its final position
+                if r[0] == 0:
+                    res.violation("call-that-must-be-rejected-accepted", "a write on a closed writer was accepted",
+                                  dict(hist, call=i, cursor=cur), "rejected with an error", r[:5])
+                    break
+                continue
             if op[0] == "w":
                 ns = cur if op[1] is None else op[1]
                 must = ns < cur
@@ -188,7 +199,7 @@ def run(res):
                 hook_state["bad"] = (i, op)
         return wl.run_impl(cfg, ops, chdir, hook=hook)
 
-    wl.run_histories(res, nh, oracle, invalid_rate=0.3, far=True)
+    wl.run_histories(res, nh, oracle, invalid_rate=0.3, far=True, after_close=0.3)
     # byte-level "changes nothing" on a subset (hashing every call is slower)
     work = common.scratch_dir()
     for i in range(30 if res.tier == "quick" else 500):
